@@ -1,7 +1,7 @@
 """C14 -- concurrent queries are race-free; gwb-grid output does not depend on -j
 (spec/Pool.tla, spec/PoolTrace.tla, spec/Concurrent.tla)."""
 import glob, json, os, shutil, subprocess, tempfile
-from lib import build, tlc, report
+from lib import build, tlc, report, datfiles
 
 VERIF = os.path.dirname(os.path.dirname(os.path.dirname(os.path.abspath(__file__))))
 REPO = build.REPO
@@ -58,11 +58,18 @@ def run(tier):
         c.sample({"trace_head": [json.loads(l) for l in open(trace).read().splitlines()[:6]]})
         # 3. real threads against one world, bitwise vs single thread; the same under ThreadSanitizer
         env = dict(os.environ, TSAN_OPTIONS="exitcode=68 halt_on_error=1")
+        # the repository's own worlds (every model type, variable depth surfaces, ...) with the points of their .dat files
+        repo = datfiles.repo_worlds(max_points=24 if quick else 60)
+        c.notes["repo_worlds"] = len(repo)
+        jobs = list(jobs) + [json.dumps(w) for w in repo]
         for ji, job in enumerate(jobs):
             jp = os.path.join(tmp, "job%d.json" % ji)
             open(jp, "w").write(job)
-            for flavour, exe, tcounts, rounds in (("rel", exes["threads"], (2, 7, 32), 20 if quick else 200),
-                                                   ("tsan", tsan["threads"], (4, 16) if quick else (2, 4, 16, 32), 2 if quick else 6)):
+            spec_job = '"wb"' in job[:20]
+            plan = ((("rel", exes["threads"], (2, 7, 32), 20 if quick else 200), ("tsan", tsan["threads"], (4, 16) if quick else (2, 4, 16, 32), 2 if quick else 6))
+                    if spec_job else
+                    (("rel", exes["threads"], (8,) if quick else (3, 8, 32), 30 if quick else 200), ("tsan", tsan["threads"], (4,) if quick else (4, 16), 1 if quick else 3)))
+            for flavour, exe, tcounts, rounds in plan:
                 for t in tcounts:
                     p = subprocess.run([exe, jp, str(t), str(rounds), tmp], stdout=subprocess.PIPE, stderr=subprocess.PIPE, text=True, env=env, timeout=1500)
                     st = {}
@@ -70,6 +77,7 @@ def run(tier):
                     except Exception: pass
                     c.coverage["evaluations"] += st.get("queries", 0)
                     c.notes.setdefault("threads_runs", []).append({"job": ji, "flavour": flavour, "threads": t, "rc": p.returncode, **st})
+                    if p.returncode == 77: break          # a repository file that is meant not to build
                     if p.returncode != 0:
                         kind = "data-race" if p.returncode == 68 or "ThreadSanitizer" in p.stderr else "thread-answer-differs"
                         c.mismatches.append({"id": "threads-%s-%d-%d" % (flavour, ji, t), "labels": ["threads", flavour], "check": kind, "op": "properties",
